@@ -137,7 +137,6 @@ contract(
         # predecessors are placed: their dates are in the horizon (readiness + C11 of the predecessors)
         ("deps-placed", "forall(d, 'Ref:Dep', implies(DepTask(d) is not None and DepTime(d, self.scenarioIdx) is not None, "
                         "some(DepTime(d, self.scenarioIdx)) >= PStart(self.project)))"),
-        ("no-gaplength", "forall(d, 'Ref:Dep', implies(d.is_dict, d.gaplength is None))"),
     ],
     assumes=K.anc_axioms_all("Resource") + L.anc_axioms("self.property") + PT_LEMMAS,
     hide={"PT": (DT, [Ref("Project"), Int]), "PIdx": (Int, [Ref("Project"), DT])},
@@ -172,6 +171,7 @@ contract(
         "self.project.dateToIdx": ("spec", ["self", "d"], "PIdx(self, d)"),
         "self.project.idxToDate": ("spec", ["self", "i"], "ite(self.attributes['start'] is None, None, PT(self, i))"),
         "self.isWorkingTime": ("contract", TS + "::TaskScenario.isWorkingTime"),
+        "round": ("pure", Real),      # round(x, 6): some real (only used to size the working-time gap; not needed for the bound)
         "self.scheduleSlot": ("contract", TS + "::TaskScenario.scheduleSlot"),
     },
     static={"hasattr(dep, 'task')": False},
@@ -183,14 +183,22 @@ contract(
                           "secs(earliest_start) >= secs(some(DepTime(_iter[k], self.scenarioIdx))) + DepGap(_iter[k])))"),
         ], "locals": {"earliest_start": DT, "t": Opt(Ref("Task")), "gapduration": Opt(Str), "gaplength": Opt(Str),
                       "onstart": Bool, "dep_time": Opt(DT), "gap_hours": Real}},
+        # the working-slot count of a gaplength edge: stays inside the working-time table, never moves backwards
+        1: {"inv": [
+            ("in-table", "dep_time_idx >= PIdx(self.project, some(dep_time)) and dep_time_idx >= 0 and "
+                         "gap_limit == Upper(self.project) and working_slots >= 0"),
+        ], "locals": {"dep_time_idx": Int, "working_slots": Int}},
         # the slot walk
         9: {"inv": [
             ("cursor", "TaskOk(self)"),
             ("world", "World(self)"),
             K._ss_sel_distinct,
             ("unfinished", "self.doneEffort >= 0 and self.doneEffort < EffortOf(self)"),
-            ("not-before-bound", "some(self.currentSlotIdx) >= slot_idx and self.slotStartOffset == secs(earliest_start) - secs(PT(self.project, slot_idx)) "
-                                 "and self.slotStartOffset >= 0"),
+            # the intra-slot offset belongs to the slot that contains the dependency bound only (C08: it is not reserved
+            # again in a later slot)
+            ("not-before-bound", "some(self.currentSlotIdx) >= slot_idx and self.slotStartOffset >= 0 and "
+                                 "self.slotStartOffset == ite(some(self.currentSlotIdx) == slot_idx, "
+                                 "secs(earliest_start) - secs(PT(self.project, slot_idx)), 0)"),
             # C04: once a start is written it is not before the dependency bound
             ("start-ok", "ite(TStart(self.property, self.scenarioIdx) is None, self.doneEffort == 0, "
                          "some(TStart(self.property, self.scenarioIdx)) >= earliest_start)"),
